@@ -60,6 +60,8 @@ type Tr struct {
 	frameTops    []string
 	allocParent  map[string]string        // heap version -> the version it extends by writes to freshly allocated objects only
 	opaqueAtoms  map[string][]opaqueInst  // opaque function symbol -> applications seen so far
+	footTemplates map[string]footTemplate // opaque function symbol -> read-set template of its definition
+	footUsed      map[string]bool
 	stableUsed   map[string]bool
 	pendingOpaque *opaqueInst
 }
@@ -70,6 +72,7 @@ type opaqueInst struct {
 	atom string
 	sd   *SpecDef
 	bool_ bool
+	related bool // the lineage relations to older applications have been emitted (relateOpaque)
 }
 
 var _ = opaqueInst{}
@@ -79,7 +82,7 @@ func newTr(g *Global, fn *ssa.Function, key string, fc *FuncContract) *Tr {
 	return &Tr{g: g, fn: fn, key: key, fc: fc, sc: newScript(), initVars: map[string]Value{}, heapSorts: map[string]string{},
 		typeFactDone: map[string]bool{}, oblCount: map[string]int{}, assumptions: map[string]bool{}, cntSyms: map[string]string{}, callCount: map[string]int{},
 		stores: map[string]storeRec{}, freshRefs: map[string]bool{}, symTop: map[string]string{}, heapKind: map[string]string{}, revealed: map[string]bool{}, subTerms: map[string]string{}, frameTops: []string{"|top@0|"},
-		allocParent: map[string]string{}, opaqueAtoms: map[string][]opaqueInst{}, stableUsed: map[string]bool{}}
+		allocParent: map[string]string{}, opaqueAtoms: map[string][]opaqueInst{}, stableUsed: map[string]bool{}, footTemplates: map[string]footTemplate{}, footUsed: map[string]bool{}}
 }
 
 type retPoint struct {
@@ -907,12 +910,12 @@ func (tr *Tr) cutLoopEntry(fr *Frame, li *loopInfo, st *State, entryPhis map[*ss
 		}
 	}
 	nt := tr.freshSym("top", false)
-	tr.sc.fact(sLe(st.top, nt))
+	tr.sc.factLocal(sLe(st.top, nt))
 	hst.top = nt
 	for name, mi := range mods {
 		if mi.sort != "" {
 			tr.symTop[hst.vars[name].(Sc).T] = nt
-			tr.heapVersionAxiom(name, hst.vars[name].(Sc).T, mi.sort, nt)
+			tr.heapVersionAxiom(name, hst.vars[name].(Sc).T, mi.sort, nt, true)
 		}
 	}
 	for p := range entryPhis {
@@ -1161,9 +1164,16 @@ func (tr *Tr) mergeOpaqueAtoms(sts []*State, out *State, guards []string) {
 	if tr.specMode > 0 {
 		return
 	}
+	// the applications known before the merge: those created by the merge itself (below) are known under one incoming
+	// guard only and must not stand in for older ones on the other incoming paths
+	snapshot := map[string][]opaqueInst{}
+	for fn, insts := range tr.opaqueAtoms {
+		snapshot[fn] = append([]opaqueInst(nil), insts...)
+	}
 	for i, st := range sts {
 		exact := map[string]string{}  // incoming current version -> merged version
 		ancest := map[string]string{} // allocation-ancestor of an incoming version -> merged version
+		ancDist := map[string]int{}  // ... and its distance from the incoming version
 		for name := range tr.heapSorts {
 			v, ok := st.vars[name]
 			if !ok {
@@ -1185,16 +1195,76 @@ func (tr *Tr) mergeOpaqueAtoms(sts []*State, out *State, guards []string) {
 				}
 				if _, dup := ancest[p]; !dup {
 					ancest[p] = mv.(Sc).T
+					ancDist[p] = hops + 1
 				}
 				cur = p
 			}
 		}
-		for fn, insts := range tr.opaqueAtoms {
+		for _, fn := range sortedKeys(snapshot) {
+			insts := snapshot[fn]
 			n := len(insts)
+			// applications that differ only in how old their heap versions are: the youngest one carries everything the
+			// older ones do (they are already related to it), so only the youngest is carried over the merge
+			best := map[string]int{}
+			distOf := func(inst opaqueInst) (string, int, bool) {
+				d := 0
+				var key []string
+				for _, a := range inst.args {
+					if _, has := exact[a]; has {
+						key = append(key, "#")
+						continue
+					}
+					if _, has := ancest[a]; has {
+						d += ancDist[a]
+						key = append(key, "#")
+						continue
+					}
+					if strings.HasPrefix(a, "|top") {
+						key = append(key, "#")
+						if a != st.top {
+							d++
+						}
+						continue
+					}
+					if strings.HasPrefix(tr.sc.sigs[a], "() (Array") {
+						return "", 0, false
+					}
+					// a scalar argument computed from a heap version that is no longer current in this incoming state: the
+					// application is stale (later evaluations read the current version and produce a different term)
+					if strings.Contains(a, "@") {
+						for _, m := range quotedSymRe.FindAllString(a, -1) {
+							if strings.Contains(m, "@") && strings.HasPrefix(tr.sc.sigs[m], "() (Array") {
+								if _, cur := exact[m]; !cur {
+									return "", 0, false
+								}
+							}
+						}
+					}
+					key = append(key, a)
+				}
+				return strings.Join(key, " "), d, true
+			}
+			bestIdx := map[string]int{}
+			for k := 0; k < n; k++ {
+				if strings.Contains(insts[k].atom, " _") {
+					continue
+				}
+				if key, d, ok := distOf(insts[k]); ok {
+					if b, has := best[key]; !has || d < b {
+						best[key] = d
+						bestIdx[key] = k
+					}
+				}
+			}
 			for k := 0; k < n; k++ {
 				inst := insts[k]
 				if strings.Contains(inst.atom, " _") {
 					continue // registered only for the quantified stability relation
+				}
+				// among applications that differ only in how old their heap versions are, the ones closest to this incoming
+				// state are carried over (the older ones are related to them already)
+				if key, d, ok := distOf(inst); !ok || d > best[key] {
+					continue
 				}
 				changed, ok, isExact := false, true, true
 				var conds []string
